@@ -87,6 +87,7 @@ func propC12(c *Ctx) propInfo {
 		"(*liteclient.Connection).handleAuthResponse":       "publishes Connected after authentication",
 	})
 	c.requestProtocol()
+	c.sharedUnsafeObjects(la, "liteclient")
 	c.reconnectRetry()
 	c.silenceTimer()
 	c.freshFrameBuffer("E9.K11-own-buffer")
@@ -688,13 +689,19 @@ func (c *Ctx) queryFraming() {
 		fmt.Sprintf("the request is built as a %d-byte head followed by a %d-byte query id, but the answer's id is read from [%d:%d] and its byte string from offset %d: ids never match (every answer is an unknown query) or the data is misframed", head, idLen, lo, hi, off))
 	// the long/short length forms agree between encodeLength and decodeLength (same threshold and marker)
 	if e, d := c.fn("liteclient", "encodeLength"), c.fn("liteclient", "decodeLength"); e != nil && d != nil {
+		eqConsts := map[*ssa.Function]map[int64]bool{}
+		smallStores := map[*ssa.Function]bool{}
 		consts := func(f *ssa.Function) (thr, marker, shift int64) {
 			thr, marker, shift = -1, -1, -1
+			eqConsts[f] = map[int64]bool{}
 			allInstrs(f, func(_ *ssa.BasicBlock, in ssa.Instruction) {
 				switch x := in.(type) {
 				case *ssa.BinOp:
 					k, ok := constInt(x.Y)
 					op := x.Op
+					if ok && (op == token.EQL || op == token.NEQ) && k >= 200 && k <= 255 {
+						eqConsts[f][k] = true
+					}
 					if !ok {
 						// the constant on the left: 254 > i is i < 254
 						if kk, okX := constInt(x.X); okX {
@@ -722,6 +729,10 @@ func (c *Ctx) queryFraming() {
 						if _, isIdx := x.Addr.(*ssa.IndexAddr); isIdx {
 							marker = k
 						}
+					} else if ok && isByte(x.Val.Type()) {
+						if _, isIdx := x.Addr.(*ssa.IndexAddr); isIdx {
+							smallStores[f] = true
+						}
 					}
 				}
 			})
@@ -729,6 +740,11 @@ func (c *Ctx) queryFraming() {
 		}
 		et, em, es := consts(e)
 		dt, dm, ds := consts(d)
+		// a reader that does not patch the marker byte out and back in takes the long form for first byte 254 by
+		// comparison (== 254), or by elimination (below 254 short, 255 rejected), and shifts the marker out
+		if dm == -1 && !smallStores[d] && (eqConsts[d][254] || eqConsts[d][255]) {
+			dm = 254
+		}
 		c.check(et == 254 && dt == 254 && em == 254 && dm == 254 && es == 8 && ds == 8, R, "length prefix: short below 254, else 254 | 24-bit little-endian", e.Pos(), "threshold 254, marker 254, shift 8 on both sides", fmt.Sprintf("encodeLength (threshold %d, marker %d, shift %d) and decodeLength (threshold %d, restored marker %d, shift %d) do not both implement the TL length prefix (one byte below 254, otherwise 254 followed by the 24-bit little-endian length)", et, em, es, dt, dm, ds))
 	}
 }
@@ -987,4 +1003,38 @@ func (c *Ctx) handTagDispatch() {
 	if n < 2 {
 		c.bad(R, "hand-written answer dispatch found", token.NoPos, fmt.Sprintf("only %d hand-decoded answers found in package liteclient; at least the two wait calls were confirmed", n))
 	}
+}
+
+// sharedUnsafeObjects: a *math/rand.Rand (unlike the package-level functions of math/rand and crypto/rand) is
+// not safe for concurrent use. One that lives in a struct field is shared by every goroutine that uses the
+// struct; the client's Request runs on the callers' goroutines. Rule: a method call on a *rand.Rand loaded from
+// a struct field is made with a write lock held. (No instance on the pinned tree: query ids come from the
+// package-level generator.)
+func (c *Ctx) sharedUnsafeObjects(la *lockAnalysis, rels ...string) {
+	const R = "E9.K12-shared-rand"
+	n := 0
+	for _, rel := range rels {
+		for _, f := range c.moduleFuncs(rel) {
+			allInstrs(f, func(_ *ssa.BasicBlock, in ssa.Instruction) {
+				cl, ok := in.(*ssa.Call)
+				if !ok || cl.Call.IsInvoke() {
+					return
+				}
+				q := callQName(&cl.Call)
+				if !strings.HasPrefix(q, "math/rand.Rand.") && !strings.HasPrefix(q, "math/rand/v2.Rand.") {
+					return
+				}
+				ld, isLd := cl.Call.Args[0].(*ssa.UnOp)
+				if !isLd {
+					return
+				}
+				if _, _, isField := fieldOf(ld.X); !isField {
+					return
+				}
+				n++
+				c.check(heldAt(la, in) != "", R, fnName(f)+" uses the shared generator under a lock", cl.Pos(), "a write lock is held at the call", fnName(f)+" calls "+shortQ(q)+" on a *rand.Rand kept in a struct field without holding a lock: the generator is not safe for concurrent use, two concurrent requests can draw the same query id (the later registration replaces the earlier one and one caller never gets its answer) or corrupt the generator's state")
+			})
+		}
+	}
+	c.ok(R, "generators kept in struct fields", token.NoPos, fmt.Sprintf("%d use(s) of a *rand.Rand held in a struct field, each under a lock", n))
 }
